@@ -40,7 +40,7 @@ COMPONENTS = {"real": ["TunnelEndpoint (send, set_anonymity, set_tunnel_communit
 ASSUMPTIONS = ["while anonymity is switched off for a prefix its packets may use the raw socket (that is what the switch means)"]
 REACH = ["anon_send_no_circuit_queued", "anon_send_over_ready_circuit", "queue_overflow", "detached_drop", "plain_raw_ok",
          "circuit_closing_with_queue", "net_anon_delivered_via_exit", "net_hop_crashed", "wrong_circuit_not_used",
-         "second_endpoint_same_prefix", "net_blind_exit_circuit_ready", "service_with_statistics", "service_without_statistics", "anonymized_overlay_restarted", "circuits_removed_right_after_send_with_backlog", "queue_overflow_many_destinations"]
+         "second_endpoint_same_prefix", "net_blind_exit_circuit_ready", "service_with_statistics", "service_without_statistics", "anonymized_overlay_restarted", "circuits_removed_right_after_send_with_backlog", "queue_overflow_many_destinations", "net_anon_reply_received_through_tunnel"]
 
 ALPHA = "APRWCXDTNYQO"
 ANON_PREFIX = b"\x00\x02" + b"\xa1" * 20
@@ -55,6 +55,8 @@ def cases(tier: str, base_seed: int):  # noqa: ANN201
     alpha = ALPHA if tier == "thorough" else "APRWCXDNQO"
     n = 0
     net_i = 0
+    yield {"scenario": "net", "seed": base_seed + 8000, "knobs": {"lat_jit": 0.0, "loss": 0.0, "timer_jitter": 0.0}, "expect_reply": True,
+           "ops": ["build", "wait", "wait", "wait", "anon", "wait", "anon", "wait", "anon", "wait"]}
     for stats in (True, False):
         for cls in (("DHTDiscoveryCommunity",) if tier == "quick" else ("DHTDiscoveryCommunity", "DiscoveryCommunity")):
             yield {"scenario": "service", "seed": base_seed + 7000 + int(stats), "knobs": {}, "stats": stats, "anon_overlay": cls}
@@ -347,6 +349,17 @@ def run_net(c: Case, case: dict) -> dict:  # noqa: C901, PLR0915
         me = tw.nodes[0]
         tc = me.ov
         anon = me.add(AnonOverlay, CommunitySettings(anonymize=True))
+
+        def count_inbound(ov) -> None:  # noqa: ANN001
+            inner_on_packet = ov.on_packet
+
+            def on_packet(packet, warn_unknown=True):  # noqa: ANN001, ANN202
+                if packet[1][:22] == ov.get_prefix():
+                    st["anon_in"] = st.get("anon_in", 0) + 1
+                    world.probe("net_anon_reply_received_through_tunnel")
+                return inner_on_packet(packet, warn_unknown)
+            ov.on_packet = on_packet
+        count_inbound(anon)
         plain = me.add(PlainOverlay)
         target = SimNode(world, "t0", "3.3.3.3")
         await target.open("udp")
@@ -496,6 +509,7 @@ def run_net(c: Case, case: dict) -> dict:  # noqa: C901, PLR0915
                 old_task = me.call(asyncio.ensure_future, old.unload())
                 me.overlays.remove(old)
                 anon = me.add(AnonOverlay, CommunitySettings(anonymize=True))
+                count_inbound(anon)
                 world.probe("anonymized_overlay_restarted")
                 await asyncio.sleep(0.01)
                 pkt = me.call(anon.create_introduction_request, target.address)
@@ -541,6 +555,12 @@ def run_net(c: Case, case: dict) -> dict:  # noqa: C901, PLR0915
                     me.endpoint.set_tunnel_community(tc, st["hops"])
             await asyncio.sleep(0.05)
         await asyncio.sleep(3.0)
+        if case.get("expect_reply") and not st.get("anon_in"):
+            # non-vacuity of the receive side: what the outside peer answers comes back through the circuit and is handed to the
+            # anonymized overlay (TunnelEndpoint.notify_listeners(from_tunnel=True))
+            c.violate("non_vacuity", "anonymized_overlay_got_no_reply_through_tunnel",
+                      f"the anonymized overlay sent {sum(1 for o2 in case['ops'] if o2 == 'anon')} requests over a ready circuit in a loss-free run "
+                      f"and was handed none of the answers")
         # deliveries: anonymized packets must have arrived from an exit, never from my own address
         from_other = [d for src, d in seen_anon if src[0] == other.ip]
         if not case["knobs"].get("loss") and sorted(from_other) != sorted(other_sent):
